@@ -25,4 +25,13 @@ META.update({
  "C13": {"text": "Zero Broadcast / Block.Sign / PreBlock.SetData events on any node that is outside the validator list or carries the watch-only flag, in every state the adversarial driver reaches, incl. being primary at Start and after Reset.",
          "design_ref": "DESIGN.md 4/C13", "note": NOTE_ASYNC, "technique": "stateful property-based testing (rapid); silence oracle on instrumented callbacks"},
 })
+NOTE_TIMED = NOTE_ASYNC + " Timed mode is a discrete-event simulation: virtual clock, latencies drawn in [0,L], timers fire at their deadline; liveness is judged against an explicit virtual-time horizon."
+META.update({
+ "C08": {"text": "Fault-free synchronous discrete-event runs with drawn delivery order, duplicates and lagging Reset; oracle: every validator accepts every height in view 0 on one block, nobody ever broadcasts ChangeView / RecoveryRequest / RecoveryMessage, nobody needs ledger sync.",
+         "design_ref": "DESIGN.md 4/C08", "note": NOTE_TIMED, "technique": "property-based testing (rapid) over a discrete-event simulation of real instances; history oracle"},
+ "C09": {"text": "Three generated fault families (silent validators, arbitrary cut+heal, crash+amnesia restart) followed by synchrony; oracle: every live validator reaches the target height before a generous explicit horizon, and (family i, first height) decides in a view <= number of silent validators.",
+         "design_ref": "DESIGN.md 4/C09", "note": NOTE_TIMED + " Bounded liveness only: 'eventually' = the stated horizon.", "technique": "property-based testing (rapid) with fault injection over a discrete-event simulation; bounded-progress oracle"},
+ "C16": {"text": "Fault-free timed runs with the dynamic block time extension; oracle on virtual instants of PrepareRequest broadcasts: gap >= TimePerBlock, empty proposal only after MaxTimePerBlock, notification during the extended wait proposes within the call, no ChangeView/RecoveryRequest, SubscribeForTxs only when configured.",
+         "design_ref": "DESIGN.md 4/C16", "note": NOTE_TIMED, "technique": "property-based testing (rapid) over a discrete-event simulation; timing oracle on broadcast instants"},
+})
 NOT_APPLICABLE = []
